@@ -262,8 +262,8 @@ def WPk.render : WPk → String
   | .publish ver m meSet => renderPublish ver m meSet
   | .ack ver t id rc => renderAck t id rc ver
   | .suback ver id rcs =>
-    -- a packet identifier in use is answered with 0x91 for every filter, also to an MQTT 3 client (the
-    -- `continue` in processSubscribe skips the MQTT 3 downgrade); the independent decoder rejects it
+    -- (before fix e36320d a packet identifier in use was answered with 0x91 also to an MQTT 3 client: the
+    -- `continue` in processSubscribe skipped the MQTT 3 downgrade); the independent decoder rejects such a code
     match (if ver == 5 then none else rcs.find? (fun c => c != 0 && c != 1 && c != 2 && c != 0x80)) with
     | some c => s!"!bad(suback-return-code-{hex2 c}-not-defined-for-MQTT-3)"
     | none => s!"SUBACK:id{id}:rcs={if rcs.isEmpty then "-" else String.join (rcs.map hex2)}"
@@ -650,7 +650,7 @@ def processSubscribe (s : Server) (i : Nat) (id subId : Nat) (filters : List Sub
     let (s, rcs, exs) := acc
     let sub := { sub with ident := subId }
     let fin (rc : Nat) : Nat := if rc > 2 && c.ver < 5 then 0x80 else rc
-    if inUse then (s, rcs ++ [0x91], exs ++ [false])   -- `continue`: no MQTT 3 downgrade
+    if inUse then (s, rcs ++ [fin 0x91], exs ++ [false])   -- MQTT 3: downgraded to 0x80 like every refusal (fix e36320d)
     else if !isValidFilter sub.filter false then (s, rcs ++ [fin 0x8F], exs ++ [false])
     else if sub.noLocal && isSharedFilter sub.filter then (s, rcs ++ [fin 0x82], exs ++ [false])
     else if !aclOk s c.id sub.filter false then
